@@ -4,6 +4,7 @@ import (
 	"fmt"
 	"math"
 	"os"
+	"os/exec"
 	"path/filepath"
 	"reflect"
 	"regexp"
@@ -12,6 +13,7 @@ import (
 	"strings"
 	"sync"
 	"time"
+	"unicode"
 	"unicode/utf8"
 
 	"pgregory.net/rapid"
@@ -393,6 +395,46 @@ func neq[V comparable](got, want V) string {
 
 // draw from a native generator on a stream, reporting contract violations, internal
 // assertion failures and hangs
+type c03Node struct {
+	ID   int
+	Kids []c03Node
+}
+
+var c03Kids *rapid.Generator[[]c03Node]
+
+func init() {
+	depth := 0 // one draw at a time (nativeDraw waits for its goroutine)
+	node := rapid.Custom(func(t *rapid.T) c03Node {
+		n := c03Node{ID: rapid.IntRange(0, 3).Draw(t, "id")}
+		if depth < 4 {
+			depth++
+			defer func() { depth-- }()
+			n.Kids = c03Kids.Draw(t, "kids")
+		}
+		return n
+	})
+	c03Kids = rapid.Deferred(func() *rapid.Generator[[]c03Node] {
+		return rapid.SliceOfNDistinct(node, 0, 3, func(n c03Node) int { return n.ID })
+	})
+}
+
+func c03TreeDistinct(kids []c03Node) string {
+	seen := map[int]bool{}
+	for _, k := range kids {
+		if seen[k.ID] {
+			return fmt.Sprintf("two children with ID %d in %v", k.ID, kids)
+		}
+		seen[k.ID] = true
+		if what := c03TreeDistinct(k.Kids); what != "" {
+			return what
+		}
+	}
+	if len(kids) > 3 {
+		return fmt.Sprintf("%d children, at most 3 allowed", len(kids))
+	}
+	return ""
+}
+
 func nativeDraw[V any](name string, g *rapid.Generator[V], ws []uint64, usePRNG bool, seed uint64, check func(V) string) (what string, invalid bool) {
 	var s *rapid.VerifStream
 	if usePRNG {
@@ -733,6 +775,17 @@ func init() {
 				report("sized-int", what, map[string]string{"words": joinU64(ws), "prng": fmt.Sprint(usePRNG), "seed": fmt.Sprint(seed)})
 			}
 		}
+		// a distinct-slice generator that is re-entered while it is filling a slice (children of a tree node, distinct by
+		// ID, built from the same generator value through Deferred): distinct at every level
+		for i := 0; i < 120*scale; i++ {
+			seed := r.u64()
+			m.tag("recursive-distinct")
+			what, invalid := nativeDraw("recursive SliceOfNDistinct(node, 0, 3, ID)", c03Kids, nil, true, seed, c03TreeDistinct)
+			m.eval("recdistinct"+fmt.Sprint(seed), !invalid)
+			if what != "" {
+				report("recursive-distinct", what, map[string]string{"seed": fmt.Sprint(seed)})
+			}
+		}
 		// one-point domains at the extremes of every kind: the only allowed value, no assertion
 		{
 			ws := r.words(8)
@@ -859,6 +912,11 @@ func init() {
 				report("native", what, map[string]string{"words": joinU64(ws), "prng": fmt.Sprint(usePRNG), "seed": fmt.Sprint(seed), "expr": expr})
 			}
 		}
+	}
+	replayers["recursive-distinct"] = func(v violation, tmp string) (bool, string) {
+		seed, _ := strconv.ParseUint(v.Params["seed"], 10, 64)
+		what, _ := nativeDraw("recursive SliceOfNDistinct(node, 0, 3, ID)", c03Kids, nil, true, seed, c03TreeDistinct)
+		return what != "", what
 	}
 	replayers["contract"] = func(v violation, tmp string) (bool, string) {
 		sx := mustSX(v.Params["gen"])
@@ -1005,6 +1063,30 @@ func init() {
 			m.eval("make-names|"+joinU64(ws), true)
 			if what := c04MakeNames(ws); what != "" {
 				m.violate(violation{"C04", "make-names", what, map[string]string{"words": joinU64(ws)}})
+			}
+		}
+		// what a generator draws does not depend on which other generators were built before it in the process:
+		// a catalogue of generators is built and drawn from in several orders, each in a process of its own
+		{
+			self, _ := os.Executable()
+			var ref string
+			for order := 0; order < 4; order++ {
+				out, err := exec.Command(self, "orderchild", strconv.Itoa(order)).CombinedOutput()
+				m.tag("construction-order")
+				m.eval("construction-order "+strconv.Itoa(order), true)
+				if err != nil {
+					m.violate(violation{"C04", "construction-order", fmt.Sprintf("catalogue in order %d: %v %s", order, err, tail(string(out), 400)), map[string]string{"order": strconv.Itoa(order)}})
+					break
+				}
+				if order == 0 {
+					ref = string(out)
+					continue
+				}
+				if string(out) != ref {
+					m.violate(violation{"C04", "construction-order", "the same generators, built in another order in a fresh process, draw other values from the same bits: " + firstDiff(ref, string(out)),
+						map[string]string{"order": strconv.Itoa(order)}})
+					break
+				}
 			}
 		}
 		// Example(seed) is a function of the seed; history independence: interleave other work
@@ -1156,6 +1238,126 @@ func c04MakeNames(ws []uint64) string {
 	return ""
 }
 
+func tail(s string, n int) string {
+	if len(s) > n {
+		return s[len(s)-n:]
+	}
+	return s
+}
+
+func firstDiff(a, b string) string {
+	la, lb := strings.Split(a, "\n"), strings.Split(b, "\n")
+	for i := 0; i < len(la) && i < len(lb); i++ {
+		if la[i] != lb[i] {
+			return fmt.Sprintf("%q vs %q", la[i], lb[i])
+		}
+	}
+	return fmt.Sprintf("%d vs %d lines", len(la), len(lb))
+}
+
+// orderChild builds a catalogue of generators in the order number `order` (0: as listed, 1: reversed, else a
+// fixed shuffle) and draws from each right after building it; the output is sorted by catalogue index
+func orderChild(order int) {
+	tabs := []*unicode.RangeTable{unicode.Latin, unicode.Greek, unicode.Cyrillic, unicode.Digit, unicode.Han, unicode.Hebrew, unicode.Arabic,
+		unicode.Thai, unicode.Armenian, unicode.Georgian, unicode.Hiragana, unicode.Katakana, unicode.Lu, unicode.Ll, unicode.Nd, unicode.Sm}
+	var cat []func() string
+	draws := func(idx int, draw func(t *rapid.T) string) string {
+		t := rapid.VerifNewT(newRecTB("order"), rapid.VerifRandStream(uint64(1000+idx), false), false)
+		var b strings.Builder
+		for i := 0; i < 6; i++ {
+			b.WriteString(draw(t))
+			b.WriteString(" ")
+		}
+		return b.String()
+	}
+	add := func(build func() func(t *rapid.T) string) {
+		idx := len(cat)
+		cat = append(cat, func() (res string) {
+			defer func() {
+				if p := recover(); p != nil {
+					res = fmt.Sprintf("%d: panic %v", idx, p)
+				}
+			}()
+			return fmt.Sprintf("%d: %s", idx, draws(idx, build()))
+		})
+	}
+	for k := 1; k <= len(tabs); k++ {
+		k := k
+		add(func() func(t *rapid.T) string {
+			g := rapid.RuneFrom(nil, tabs[:k]...)
+			return func(t *rapid.T) string { return fmt.Sprintf("%q", rapid.VerifValue(g, t)) }
+		})
+		add(func() func(t *rapid.T) string {
+			g := rapid.RuneFrom([]rune("xyz"), tabs[:k]...)
+			return func(t *rapid.T) string { return fmt.Sprintf("%q", rapid.VerifValue(g, t)) }
+		})
+		add(func() func(t *rapid.T) string {
+			g := rapid.StringOfN(rapid.RuneFrom([]rune{'a', 'b'}, tabs[k-1]), 0, 5, -1)
+			return func(t *rapid.T) string { return fmt.Sprintf("%q", rapid.VerifValue(g, t)) }
+		})
+	}
+	for _, pat := range []string{`[a-z]+`, `[a-z]+\d`, `(ab|cd)*x`, `\pL{1,3}`, `[[:alpha:]]{2}`, `a.c`, `(?i)abc`, `[^a-c]{1,2}`} {
+		pat := pat
+		add(func() func(t *rapid.T) string {
+			g := rapid.StringMatching(pat)
+			return func(t *rapid.T) string { return fmt.Sprintf("%q", rapid.VerifValue(g, t)) }
+		})
+		add(func() func(t *rapid.T) string {
+			g := rapid.SliceOfBytesMatching(pat)
+			return func(t *rapid.T) string { return fmt.Sprintf("%q", rapid.VerifValue(g, t)) }
+		})
+	}
+	add(func() func(t *rapid.T) string {
+		g := rapid.String()
+		return func(t *rapid.T) string { return fmt.Sprintf("%q", rapid.VerifValue(g, t)) }
+	})
+	add(func() func(t *rapid.T) string {
+		g := rapid.Rune()
+		return func(t *rapid.T) string { return fmt.Sprintf("%q", rapid.VerifValue(g, t)) }
+	})
+	add(func() func(t *rapid.T) string {
+		type P struct {
+			A int8
+			B string
+			C []uint16
+		}
+		g := rapid.Make[P]()
+		return func(t *rapid.T) string { return fmt.Sprintf("%v", rapid.VerifValue(g, t)) }
+	})
+	add(func() func(t *rapid.T) string {
+		type P struct {
+			A uint64
+			B map[int8]bool
+		}
+		g := rapid.Make[P]()
+		return func(t *rapid.T) string { return fmt.Sprintf("%v", rapid.VerifValue(g, t)) }
+	})
+	n := len(cat)
+	perm := make([]int, n)
+	for i := range perm {
+		perm[i] = i
+	}
+	switch order {
+	case 0:
+	case 1:
+		for i, j := 0, n-1; i < j; i, j = i+1, j-1 {
+			perm[i], perm[j] = perm[j], perm[i]
+		}
+	default:
+		x := uint64(order) * 0x9E3779B97F4A7C15
+		for i := n - 1; i > 0; i-- {
+			x = x*6364136223846793005 + 1442695040888963407
+			j := int((x >> 33) % uint64(i+1))
+			perm[i], perm[j] = perm[j], perm[i]
+		}
+	}
+	lines := make([]string, n)
+	for _, idx := range perm {
+		lines[idx] = cat[idx]()
+	}
+	fmt.Println(strings.Join(lines, "\n"))
+}
+
 const c04AliasGens = 7
 
 // draw, remember, scribble over the value, draw again from the same bits: "" or what differs
@@ -1247,10 +1449,16 @@ func init() {
 			"((draw a (i 0 1000)) (draw b (i 0 1000)) (if (ge a 700) (rtpanic 1)) (if (ge b 300) (rtpanic 2)))",
 			"((draw a (distinct (i 0 50) 0 8 (id))) (if (lenge a 4) (failnow 1)) (if (lenge a 2) (failnow 2)))",
 			"((draw a (i 0 1000)) (draw b (slice (bool) 0 5)) (if (ge a 500) (failnow 3)) (if (lenge b 2) (failnow 4)))",
+			// a failure inside an action of Repeat, right after its last draw: the group of the failing step is still
+			// open, its coin lies between finished groups, and the last group ends at the end of the data
+			"((draw a (u 0 255)) (repeat (act (draw x (u 0 255)) (if (ge a 5) (if (ge x 7) (fatal 1))))))",
+			"((draw a (u 0 255)) (repeat (act (draw x (u 0 255)) (if (ge a 5) (if (lt a 10) (if (ge x 7) (fatal 1)))))))",
+			"((draw a (u 0 255)) (draw b (u 0 255)) (repeat (act (draw x (u 0 255)) (if (ge x 200) (fatal 1))) (act (draw y (slice (u 0 9) 0 3)) (if (ge b 100) (if (lenge y 2) (fatal 2))))))",
 		}
 		ncollapse := len(collapseCorpus) * 4 * scale
 		for i := 0; i < 40*scale+ncollapse; i++ {
 			var prog *SX
+			listed := false
 			fl := baseFlags()
 			fl.Seed = r.u64() | 1
 			fl.ShrinkTime = []time.Duration{0, 30 * time.Second, time.Duration(1+r.intn(4000)) * time.Microsecond}[r.intn(3)]
@@ -1259,8 +1467,15 @@ func init() {
 				prog = mustSX(collapseCorpus[i%len(collapseCorpus)])
 				fl.ShrinkTime = 30 * time.Second
 				m.tag("collapse-corpus")
+			} else if i-ncollapse < 2*len(progs) {
+				// every listed program at least twice, with time to finish the minimization
+				prog = mustSX(progs[(i-ncollapse)%len(progs)])
+				fl.ShrinkTime = 30 * time.Second
+				fl.Checks = 400
+				listed = true
 			} else if r.chance(1, 2) {
 				prog = mustSX(progs[r.intn(len(progs))])
+				listed = true
 			} else {
 				prog = r.engineProgram()
 			}
@@ -1307,6 +1522,10 @@ func init() {
 			}
 			if firstSite != "" && finalSite != "" && firstSite != finalSite {
 				what = fmt.Sprintf("minimized failure is at %s, the failure found was at %s", finalSite, firstSite)
+			}
+			if listed && firstSite != "" && last != nil && finalSite == "" {
+				// (the listed programs signal nothing from Custom functions and have no action that gives up: D2/D8 do not apply)
+				what = fmt.Sprintf("the failure found was at %s; the minimized test case [%s], run for the report, does not fail (it drew %v)", firstSite, joinU64(last.words), last.vals)
 			}
 			// accepted candidates are strictly decreasing
 			var prev []uint64
